@@ -70,6 +70,9 @@ def context(case):
 
 def examine(case, ctx=None):
     """case: scoring context + 'lo', 'hi' (inclusive centi range) [+ 'step'].  Checks every adjacent pair."""
+    if case.get('perturb') and ctx is None:
+        from checks.c01 import reset_state      # replay: from the just-imported state
+        reset_state()
     f, lower_better, lob, hib = context(case)
     step = case.get('step', 1)
     lo, hi = case['lo'], case['hi']
@@ -77,12 +80,23 @@ def examine(case, ctx=None):
     sysname = case['system']
     ctxkey = tuple(sorted((k, str(v)) for k, v in case.items() if k not in ('lo', 'hi', 'kind')))
     rng = range(hi, lo - 1, -step) if not lower_better else range(lo, hi + 1, step)
-    # iterate from the BEST mark to the WORST: points must never increase
+    # iterate from the BEST mark to the WORST: points must never increase (reverse=True: from the worst to the best,
+    # points must never decrease - with interleaved option calls the two directions expose different leaks)
     rng = range(lo, hi + 1, step) if lower_better else range(hi, lo - 1, -step)
+    reverse = bool(case.get('reverse'))
+    if reverse:
+        rng = rng[::-1]
     prev = None
     prevc = None
     n = 0
+    perturb = case.get('perturb')
     for c in rng:
+        if perturb and n % perturb == perturb - 1:
+            # an unrelated call with a rarely used option between two compared marks must not disturb later answers
+            if sysname == 'athlon':
+                call(athlib.athlon_score, case['gender'], case['event'], centi_float(c), esaa=True)
+                call(athlib.athlon_score, 'M', '800', 125.0, esaa=True)
+                call(athlib.athlon_score, case['gender'], case['event'], centi_float(c), age=50)
         r = f(c)
         n += 1
         if r[0] == 'exc':
@@ -97,10 +111,12 @@ def examine(case, ctx=None):
         if p < lob or (hib is not None and p > hib):
             out.append(V('bounds', [sysname, 'bounds'], dict(case, lo=c, hi=c), p, [lob, hib]))
         if prev is not None:
-            if p > prev:
+            if (p > prev) if not reverse else (p < prev):
                 a, b = sorted((prevc, c))
-                out.append(V('monotone', [sysname, 'dip'], dict(case, lo=a, hi=b),
-                             {'better_mark': prevc / 100.0, 'points': prev, 'worse_mark': c / 100.0, 'worse_points': p}))
+                out.append(V('monotone', [sysname, 'dip'] + (['with-interleaved-option-calls'] if perturb else []),
+                             dict(case, lo=a, hi=b),
+                             {'first_mark': prevc / 100.0, 'first_points': prev, 'second_mark': c / 100.0, 'second_points': p,
+                              'direction': 'worst-to-best' if reverse else 'best-to-worst'}))
             if p != prev and ctx is not None:
                 ctx.nontrivial((ctxkey, c),
                                dict(case, lo=min(prevc, c), hi=max(prevc, c), points=[prev, p])
@@ -156,8 +172,12 @@ def shard(ctx, payload):
     rng = random.Random(derive_seed(ctx.seed, 'C05', repr(payload)))
 
     def sweep(case, lo, hi, points=(), nwin=4, width=1500, full=False):
-        for a, b in windows(lo, hi, points, nwin, width, rng, full or thorough):
+        for a, b in windows(lo, hi, points, nwin, width, rng, full or (thorough and not case.get('perturb'))):
             c = dict(case, lo=a, hi=b)
+            if case.get('perturb'):
+                # every perturbed window starts from the just-imported module state, so a leak shows in each of them
+                from checks.c01 import reset_state
+                reset_state()
             ctx.violations(examine(c, ctx))
 
     if sysname == 'athlon':
@@ -168,6 +188,10 @@ def shard(ctx, payload):
         hi = mark_range(row)
         base = {'system': 'athlon', 'gender': g, 'event': e, 'esaa': esaa}
         sweep(dict(base, age=None), 0, hi, full=True)
+        if not esaa:
+            # the same sweep with option calls interleaved (state must not leak between calls)
+            sweep(dict(base, age=None, perturb=37, reverse=True), 0, hi, nwin=4 if not thorough else 12, width=1500)
+            sweep(dict(base, age=None, perturb=41), 0, hi, nwin=2 if not thorough else 8, width=1500)
         for band in range(35, 111, 5):
             f = athlon.exact_factor(g, e, band)
             if f is None:
